@@ -91,6 +91,22 @@ OnlyDeletes(arg, t, o, r, exc) ==
                   ELSE IF o.frag = "except-routing" /\ RoutingFragment(si.fragment) THEN Decode(so.fragment) = Decode(si.fragment)
                   ELSE so.fragment = <<>> \/ Decode(so.fragment) = Decode(si.fragment), "fragment")
 
+\* "switching an option off ... changes nothing else": the denotation of the result may differ from the default result only
+\* on the components the flipped option owns
+Owned(o) == CASE o = "sort" -> {} [] o = "auth" -> {"user", "pass"} [] o = "ts" -> {"trailing"} [] o = "index" -> {"path", "trailing"}
+              [] o = "proto" -> {"scheme", "port"} [] o = "sub" -> {"host"} [] o = "frag" -> {"frag"}
+              [] o = "amp" -> {"host", "path", "trailing", "query"} [] o = "fix" -> {"query"} [] o = "quoted" -> {} [] OTHER -> {}
+FrameFailing(r0, flips) ==
+  UNION {LET d == DenDiffOf(AsParsable(r0), AsParsable(flips[i].r), FALSE)
+             \* sorting only reorders: compare the query as a bag
+             d2 == IF flips[i].o = "sort" /\ BagOfSeq(Den(AsParsable(r0)).query) = BagOfSeq(Den(AsParsable(flips[i].r)).query) THEN d \ {"query"} ELSE d
+             \* the one documented interaction: the index page is looked for after the trailing slash is gone, so with the slash
+             \* kept 'index/' stays ("the trailing slash is preserved exactly" then includes the segment it closes)
+             a == Den(AsParsable(r0)).path b == Den(AsParsable(flips[i].r)).path
+             d3 == IF flips[i].o = "ts" /\ "path" \in d2 /\ Len(b) = Len(a) + 1 /\ SubSeq(b, 1, Len(a)) = a
+                      /\ InSeq(StemOf(b[Len(b)]), ND.index_names) /\ Den(AsParsable(flips[i].r)).trailing THEN d2 \ {"path"} ELSE d2
+         IN IF d3 \subseteq Owned(flips[i].o) THEN {} ELSE {"frame-" \o flips[i].o} : i \in 1..Len(flips)}
+
 \* ----------------------------------------------------------------- (S) the reference model satisfies the contract
 VARIABLES url, opt, res, done
 vars == <<url, opt, res, done>>
@@ -99,4 +115,10 @@ Normalize == ~done /\ res' = RefNorm(url, opt) /\ done' = TRUE /\ UNCHANGED <<ur
 Next == Normalize
 Spec == Init /\ [][Next]_vars
 ContractHolds == done => OnlyDeletes(url, url, opt, res, "") = {}
+\* frame property on the reference model: single flips from the default vector
+FlipNames == {"sort", "auth", "ts", "index", "proto", "sub", "amp", "fix", "quoted"}
+Flip(o) == IF o = "frag" THEN [DefaultOpts EXCEPT !.frag = "false"] ELSE [DefaultOpts EXCEPT ![o] = ~DefaultOpts[o]]
+FrameHolds == done /\ opt = DefaultOpts /\ InGrammar(Prepared(url)) /\ NetParts(Split(Prepared(url)).netloc).host # <<>> =>
+              FrameFailing(res, [i \in 1..10 |-> LET o == (<<"sort", "auth", "ts", "index", "proto", "sub", "amp", "fix", "quoted", "frag">>)[i]
+                                                 IN [o |-> o, r |-> RefNorm(url, Flip(o))]]) = {}
 =============================================================================
